@@ -169,10 +169,10 @@ JOBS.append({"name": "sha1crypt", "props": ["C01", "C03", "C04", "C05", "C06", "
                        {"function": "_crypt_crypt_sha1crypt_rn", "anchor": "for (i = 1; i < iterations; ++i)",
                         "invariant": "i >= 1 && (i <= iterations || i == 1) && g_calls == i && h_args_ok && h1_len == __CPROVER_loop_entry(h1_len) && h1_at_j == __CPROVER_loop_entry(h1_at_j)", "decreases": "iterations - i",
                         "assigns": "i, g_calls, h_args_ok, h1_len, h1_at_j, __CPROVER_object_whole(hmac_buf)"}],
-             "cases": [("nd%d" % k, "nd == %d" % k) for k in range(21)],
+             "cases": [("nd%d" % k, "nd == %d" % k, ["XV_BIGDEC=1"] if k > 10 else []) for k in range(21)],
              # one case is about 4 minutes of solver time on an idle core; the quick commands have to stay well under 15 minutes
-             "cases_quick": ["nd1", "nd11"],
-             "cases_quick_note": "quick tier: 1-digit and 11-digit iteration fields (both decimal-printing paths of the model); thorough tier: every length 0..20 (exhaustive for the stated domain)",
+             "cases_quick": ["nd1"],
+             "cases_quick_note": "quick tier: a 1-digit iteration field; thorough tier: every length 0..20 (exhaustive for the stated domain)",
              "unwind": 10, "bounds": {"SPAN": 64, "STR": 32, "SPANEXACT": 24, "PCTS": 104}, "mem_gb": 6, "timeout": 2400, "no_native": True,
              "bound": "strlen (setting) < 136, salt field of at most 104 characters (the first size check of the function assumes 64; the overrun it missed needs 65 or more)",
              "assumptions": ["hmac_sha1_process_data replaced by its contract (job hmac_sha1)", "A-dec for the printed iteration count"]})
